@@ -32,12 +32,17 @@ class BatcherRoles:
             if init is None:
                 continue
             r = Resolver(init)
-            for n in own_nodes(init.node):
-                if isinstance(n, ast.Assign) and isinstance(n.value, ast.Call) and r.path(n.value.func) == 'asyncio.Semaphore':
-                    self.cls = c
-                    self.init = init
+            # the batcher: a class whose constructor builds an asyncio queue and whose async __call__
+            # creates futures (the semaphore is a protective construct, not part of the subject)
+            call = u.scopes.get(f'{c.qualname}.__call__')
+            has_q = any(isinstance(n, ast.Assign) and isinstance(n.value, ast.Call) and (r.path(n.value.func) or '').startswith('asyncio.')
+                        and (r.path(n.value.func) or '').endswith('Queue') for n in own_nodes(init.node))
+            if has_q and call is not None and call.is_async and any(
+                    isinstance(x, ast.Attribute) and x.attr == 'create_future' for x in ast.walk(call.node)):
+                self.cls = c
+                self.init = init
         if self.cls is None:
-            raise AnalysisError('batcher class (constructing an asyncio.Semaphore) not found')
+            raise AnalysisError('batcher class (asyncio queue in __init__, futures created in async __call__) not found')
         cls = self.cls
         r = Resolver(self.init)
         self.attr_ctor: Dict[str, ast.expr] = {}
@@ -78,7 +83,7 @@ class BatcherRoles:
                     info = callee_info(g, n.ast)
                     if info['kind'] == 'package' and self.assemble in info.get('scopes', []):
                         self.dispatch = f
-        missing = [k for k in ('sem', 'workq', 'ret', 'process', 'assemble', 'dispatch') if getattr(self, k) is None]
+        missing = [k for k in ('workq', 'ret', 'process', 'assemble', 'dispatch') if getattr(self, k) is None]
         if missing:
             raise AnalysisError(f'batcher roles not found: {missing}')
         self.gproc = build(self.process, p)
@@ -317,7 +322,7 @@ def _rule_dispatch(ctx: Ctx, r: BatcherRoles, rule: str) -> None:
               'it serves until it is cancelled', 'the dispatcher can return: every later call is enqueued and never answered',
               witness=render(gd, w), construct=construct_key(r.dispatch.qualname, 'dispatcher returns'))
     g = r.gproc
-    sem_with = [n for n in g.nodes if n.kind == 'with_enter' and n.meta.get('is_async') and self_attr(n.ast) == r.sem]
+    sem_with = [n for n in g.nodes if n.kind == 'with_enter' and n.meta.get('is_async') and r.sem is not None and self_attr(n.ast) == r.sem]
     manual = [n for f in r.p.all_functions() for n in build(f, r.p).nodes if n.kind == 'call'
               and isinstance(n.ast.func, ast.Attribute) and n.ast.func.attr in ('acquire', 'release')
               and self_attr(n.ast.func.value) == r.sem]
@@ -554,13 +559,17 @@ def c10(ctx: Ctx) -> None:
         for n in gg.nodes:
             if n.kind == 'call' and self_attr(n.ast.func) == 'func':
                 calls_func.append((gg, n))
+    if r.sem is None:
+        ctx.violation('C10-R3', 'no asyncio.Semaphore is constructed', f'{FILE}:{r.init.lineno}',
+                      'nothing limits the number of concurrent executions of the batch function',
+                      construct=construct_key(r.init.qualname, 'no semaphore'))
     for gg, n in calls_func:
-        inside = any(self_attr(i.context_expr) == r.sem for i in n.withs)
+        inside = r.sem is not None and any(self_attr(i.context_expr) == r.sem for i in n.withs)
         ctx.check('C10-R3', f'{norm(n.ast)} in {gg.scope.qualname}', gg.loc(n), inside,
                   f'inside async with self.{r.sem}', 'the batch function runs outside the semaphore: unlimited concurrent batches',
                   construct=construct_key(gg.scope.qualname, n.ast, 'outside semaphore'))
     sem_writes = [(f, n) for f in p.all_functions() for n in build(f, p).nodes if n.kind == 'store_attr' and n.meta['attr'] == r.sem]
-    v = r.attr_ctor.get(r.sem)
+    v = r.attr_ctor.get(r.sem) if r.sem else None
     val = None
     if isinstance(v, ast.Call):
         val = v.args[0] if v.args else next((k.value for k in v.keywords if k.arg == 'value'), None)
@@ -937,7 +946,7 @@ def _chains(ctx: Ctx, p) -> None:
                 ctor = x
     uses = {
         'max_batch_size': lambda: any(n.kind == 'branch' and any(self_attr(y) == 'max_batch_size' for y in ast.walk(n.meta['test'])) for n in r.gasm.nodes),
-        'max_concurrent_batches': lambda: isinstance(r.attr_ctor.get(r.sem), ast.Call) and any(
+        'max_concurrent_batches': lambda: r.sem is not None and isinstance(r.attr_ctor.get(r.sem), ast.Call) and any(
             isinstance(y, ast.Name) and y.id == 'max_concurrent_batches' for y in ast.walk(r.attr_ctor[r.sem])),
         'batch_timeout': lambda: any(n.kind == 'call' and call_name(r.gasm, n.ast) == 'asyncio.wait_for' and len(n.ast.args) > 1
                                      and self_attr(n.ast.args[1]) == 'batch_timeout' for n in r.gasm.nodes),
